@@ -71,6 +71,7 @@ def run(ctx):
     subsets = list(itertools.chain.from_iterable(itertools.combinations(CLASSES, k) for k in range(len(CLASSES) + 1)))
     if not ctx.thorough:
         subsets = [s_ for s_ in subsets if len(s_) <= 2 or len(s_) == len(CLASSES)] + [("A", "B", "C"), ("A", "B", "F", "S1")]
+    work = []
     for live in subsets:
         ops = [("new", c, v) for c in CLASSES for v in (0, 1)] + [("clear", c, None) for c in CLASSES] + [("clear-all", None, None)]
         seqs = [(o,) for o in ops]
@@ -79,12 +80,22 @@ def run(ctx):
         else:
             ca = ("clear-all", None, None)
             seqs += [(ca, ca), (("clear", "C", None), ca), (ca, ("clear", "A", None)), (("new", "V", 1), ("new", "V", 0)), (("new", "V", 1), ("clear", "V", None)), (("new", "V", 1), ca)]
-        for seq in seqs:
-            try:
-                why, sample = evaluate(h, live, seq)
-            except Unknown as u:
+        work += [(live, seq) for seq in seqs]
+    import multiprocessing as mp
+    import os
+    if ctx.thorough and not mp.current_process().daemon and (os.cpu_count() or 1) > 1:
+        nproc = min(16, os.cpu_count() or 1)
+        root, overlay = str(ctx.src.root), dict(ctx.src.overlay)
+        chunks = [(root, overlay, work[i::nproc * 4]) for i in range(nproc * 4)]
+        with mp.get_context("fork").Pool(nproc) as pool:
+            outcomes = [o for part in pool.map(_eval_chunk, chunks) for o in part]
+    else:
+        outcomes = _eval_chunk((None, None, work), h)
+    for live, seq, why, sample, und in outcomes:
+        if True:
+            if und is not None:
                 res.ob(False)
-                res.undecide(f"live={live} ops={seq}: {u}")
+                res.undecide(f"live={live} ops={seq}: {und}")
                 continue
             n += 1
             res.ob(why is None, sig=(live, seq), sample=sample)
@@ -110,6 +121,21 @@ def run(ctx):
     common.vacuity(res, "TABLE-STEP", 800)
     res.analysed = common.analysed(ctx, [MOD + ".clear_true_singleton", MOD + ".TrueSingleton.__call__"])
     res.explanation = "Every operation maps every reachable table state to the model's table state; induction gives the statement for all interleavings."
+
+
+def _eval_chunk(job, h=None):
+    root, overlay, items = job
+    if h is None:
+        from sa.src import Source
+        h = H(Source(root, overlay), [MOD])
+    out = []
+    for live, seq in items:
+        try:
+            why, sample = evaluate(h, live, seq)
+            out.append((live, seq, why, sample, None))
+        except Unknown as u:
+            out.append((live, seq, None, None, str(u)))
+    return out
 
 
 def _load(h):
